@@ -17,8 +17,10 @@ import fsharness as H
 from props import _stateful as S
 from props import _infomodel
 from props import _ftp as F
+from props import _genstatus
 
-EXTRA_PROOF_MODULES = ("FsProofs.InfoLaws",)
+# PermGenEq: `Permissions` regenerated from fs/permissions.py by harness/extract/permgen.py = Fs.Info.Permissions (design.d/GEN2.md)
+EXTRA_PROOF_MODULES = ("FsProofs.InfoLaws", "FsProofs.PermGenEq")
 
 NS_SETS = [(), ("basic",), ("details",), ("basic", "details"), ("details", "access"), ("stat",), ("details", "stat", "lstat", "link", "access")]
 STANDARD_NS = ("basic", "details", "access", "link")
@@ -275,6 +277,7 @@ def info_accessor_grid(rep, rng, n_random):
 def run(rep, tier, seed, deep=False):
     rng = vlib.rng_for(seed, "c10")
     quick = tier == "quick"
+    _genstatus.report(rep, "C10", "PermGen", "FsProofs.PermGenEq", "FsModel/Info.lean (Permissions)")
     n_hist, n_ops, every = (60, 16, 4) if quick else (400, 30, 3)
     if deep:
         n_hist *= 3
